@@ -117,6 +117,11 @@ def digest_forms(ctx):
                           App("call", (Ref("func", repo.lookup_method(envcls.obj, "from_obj")), envcls, src)),
                           App("call", (Ref("func", repo.lookup_method(envcls.obj, "from_cbor")), envcls, App("filebytes", (src,))))))
         ok = v == App("meth:hex", (App("meth:get_manifest_digest", (sub, ALG)),))
+        if not ok and isinstance(v, App) and v.op == "call" and isinstance(v.args[0], Ref) and getattr(v.args[0].obj, "qualname", "") == "SuitHash.hash" and len(v.args) == 3:
+            # the same value spelled out: SuitHash(<parent's algorithm>).hash(<child>.get_manifest().to_cbor()) - what get_manifest_digest
+            # computes (its own body is decided by the get_manifest_digest instance of this rule)
+            h_, data_ = v.args[1], v.args[2]
+            ok = isinstance(h_, App) and h_.op == "new" and h_.args[2:] == (ALG,) and data_ == App("meth:to_cbor", (App("meth:get_manifest", (sub,)),))
         R.check("C05-D1a digest forms", ok, "envelope: child built from the inline description / whole file, digest of its manifest under the parent's algorithm",
                 mod=fi.module, node=e.node, function=fq,
                 expected="SuitEnvelopeTagged.from_obj(desc) | from_cbor(open(path,'rb').read()) -> get_manifest_digest(obj's algorithm).hex()",
